@@ -202,6 +202,14 @@ def job_histories(ses, maxlen, which=('c13', 'c17'), shard=0, nshards=1):
                     rec = upper_obligation(ses, 'history %s: the token of the build at call %d carries exp %s' % (seq, bi, 'never (acknowledged)' if acked else 'always (not acknowledged)'),
                                            list(s2.pc) + mapdefs_lemmas(s2, [EXP]) + [Not(want)], values=[k for _, k, _ in sets])
                     if rec: ses.violation('builder sequence %s: exp presence wrong in the built token (acknowledged=%s)' % (seq, acked), fmt_model(['k%d' % i for i, _, _ in sets], rec), {'kind': 'c13'})
+                    # the default time claims of every token of this builder are the ones default() computed (one clock reading at creation): nothing re-derives them at build time
+                    g0 = dict(zip(w.fields('GenericBuilder'), dict(zip(w.fields('PasetoBuilder'), b0[3]))['builder'][3])); V0 = g0['claims'][2]
+                    for K_ in (EXP, StringVal('iat'), StringVal('nbf')):
+                        if K_ is EXP and acked: continue
+                        user_k = Or(*[k == K_ for _, k, _ in sets]) if sets else BoolVal(False)
+                        rec = upper_obligation(ses, 'history %s: the %s of the token of the build at call %d is the one computed by default() unless the caller set it' % (seq, K_.as_string(), bi),
+                                               list(s2.pc) + mapdefs_lemmas(s2, [K_]) + [Not(user_k), Select(po[1], K_) != Select(V0, K_)], values=[k for _, k, _ in sets])
+                        if rec: ses.violation('builder sequence %s: the default %s of build #%d is not the value computed when the builder was created' % (seq, K_.as_string(), bi), {}, {'kind': 'c13'})
     ses.samples.append({'histories': len(seqs), 'example': seqs[min(5, len(seqs) - 1)]})
     ses.absorb(ex)
 BASELINE = ['c13']
